@@ -62,7 +62,16 @@ func zzReach(label string) {
 	s.Reached = append(s.Reached, label)
 }
 
-func zzNote(label string) {}
+var zzNotes []string
+
+func zzNote(label string) { zzNotes = append(zzNotes, label) }
+
+func zzErrText(err error) string {
+	if err == nil {
+		return "<nil>"
+	}
+	return err.Error()
+}
 
 func zzBool(name string) bool { return zzLoad().Values[name] == "true" }
 
